@@ -4,7 +4,10 @@
   import <Cxx> <k> <src dir> <worktree> "<change>" "<needs>"
         confirm the change in the scratch worktree (tools/seedconfirm.sh), copy patch.diff, demo/ and
         README.md to seeded/<Cxx>-<k>/ and write meta.json
-  run <sid> <tier> [<Cyy> …]
+  harmless <Hx> <k> <src dir> <worktree> "<change>"
+        a behaviour-preserving change (control): confirm that it applies and that the suite passes, keep it
+        under seeded/<Hx>-<k>/ with breaks = null; `run <sid> <tier> all` then expects every check to stay silent
+  run <sid> <tier> [<Cyy> … | all]
         apply seeded/<sid>/patch.diff to /repo (tools/seedrun.sh), run the checks (default: the property
         it breaks), restore /repo, record the outcome in meta.json
 """
@@ -52,10 +55,47 @@ def do_import(pid, k, src, wt, change, needs):
     return 0
 
 
+def do_harmless(hid, k, src, wt, change):
+    sid = f"{hid}-{k}"
+    dst = os.path.join(ROOT, "seeded", sid)
+    env = dict(os.environ, GOFLAGS="-mod=mod", GOPROXY="off", GOSUMDB="off", GOTOOLCHAIN="local")
+    sh(["git", "checkout", "-q", "--", "."], cwd=wt)
+    a = sh(["git", "apply", os.path.join(src, "patch.diff")], cwd=wt)
+    ok = a.returncode == 0
+    suite = "-"
+    if ok:
+        t = sh("go build ./... && go test -vet=off -count=1 ./...", cwd=wt, env=env, shell=True)
+        suite = "pass" if t.returncode == 0 else "FAIL"
+        ok = t.returncode == 0
+    sh(["git", "checkout", "-q", "--", "."], cwd=wt)
+    sh(["git", "clean", "-fdq"], cwd=wt)
+    if not ok:
+        print(f"NOT CONFIRMED: applies={a.returncode == 0} suite={suite}")
+        return 1
+    shutil.rmtree(dst, ignore_errors=True)
+    os.makedirs(dst)
+    shutil.copy(os.path.join(src, "patch.diff"), dst)
+    if os.path.exists(os.path.join(src, "README.md")):
+        shutil.copy(os.path.join(src, "README.md"), dst)
+    meta = {"id": sid, "breaks": None, "change": change, "needs": "nothing: behaviour-preserving control",
+            "confirmed": {"how": "patch applies; go build and the full pinned suite pass with it; behaviour preservation argued in README.md",
+                          "applies": "yes", "suite": suite},
+            "author": "fresh sub-agent given only the area of the code base and a scratch worktree",
+            "results": {}}
+    json.dump(meta, open(os.path.join(dst, "meta.json"), "w"), indent=1)
+    print(f"imported {sid}")
+    return 0
+
+
+ALL = ["C%02d" % i for i in range(1, 21)]
+
+
 def do_run(sid, tier, props):
     d = os.path.join(ROOT, "seeded", sid)
     mp = os.path.join(d, "meta.json")
     meta = json.load(open(mp))
+    if props == ["all"]:
+        props = ALL
     props = props or [meta["breaks"]]
     r = sh([os.path.join(ROOT, "tools", "seedrun.sh"), os.path.join(d, "patch.diff"), tier] + props, cwd=ROOT)
     print(r.stdout)
@@ -83,5 +123,7 @@ def do_run(sid, tier, props):
 if __name__ == "__main__":
     if sys.argv[1] == "import":
         sys.exit(do_import(*sys.argv[2:8]))
+    if sys.argv[1] == "harmless":
+        sys.exit(do_harmless(*sys.argv[2:7]))
     if sys.argv[1] == "run":
         sys.exit(do_run(sys.argv[2], sys.argv[3], sys.argv[4:]))
